@@ -1,4 +1,4 @@
-"""Type-directed generator of MiniPy programs (stages 1–3) + argument vectors + one-edit perturbations.
+"""Type-directed generator of MiniPy programs (stages 1–5: + try/except/finally, raise, user-defined __bool__) + argument vectors + one-edit perturbations.
 
 Programs are well-typed *by construction with respect to a conservative approximation* of the checker's flow
 typing (narrowing in branches is tracked, everything that is assigned inside a branch or a loop falls back to
